@@ -881,8 +881,8 @@ class TunnelCommunity(Community):
 
             self.logger.info("Got CREATED message forward as EXTENDED to origin.")
 
-            if request.from_circuit_id not in self.exit_sockets:
-                self.logger.info("Created for unknown exit socket %s", request.from_circuit_id)
+            if request.from_circuit_id not in self.exit_sockets or request.from_circuit_id in self.relay_from_to:
+                self.logger.info("Created for unknown or already extended exit socket %s", request.from_circuit_id)
                 return
             session_keys = self.exit_sockets[request.from_circuit_id].hop.keys
             self.remove_exit_socket(request.from_circuit_id, remove_now=True)
